@@ -189,7 +189,14 @@ def gen_binding_cases(rnd, n):
             continue
         if fe == 'sqlite' and (any(x == '' for x in names) or len(set(x.lower() for x in names)) != len(names)):
             continue      # SQLite column names are case-insensitive: a table with columns x1 and X1 cannot exist there
-        cases.append({'names': names, 'rows': rows, 'query': 'select %s, NR' % var, 'frontend': fe, 'normalize': normalize, 'pos': pos, 'spell': spell})
+        c = {'names': names, 'rows': rows, 'query': 'select %s, NR' % var, 'frontend': fe, 'normalize': normalize, 'pos': pos, 'spell': spell}
+        if spell in ('dq', 'sq', 'attr') and '\\' not in var and rnd.random() < 0.15:
+            # the variable occurs ONLY inside an f-string (a string literal for the query parser, code for Python): it must still be bound
+            outer = "'" if "'" not in var else ('"' if '"' not in var else None)
+            if outer is not None and '{' not in var and '}' not in var and '\n' not in var and '\r' not in var:
+                c['query'] = 'select f%s{%s}%s, NR' % (outer, var, outer)
+                c['fstring'] = True
+        cases.append(c)
     # direct mode with columns NAMED like positional variables (a2 as the name of the first column, …): the bare name is the column of that
     # name, whatever its position (the header pass runs after the positional pass and wins)
     for _ in range(n // 10):
@@ -281,7 +288,7 @@ def run(res, tier, seed):
                                'expected': [['r1 c0', 1], ['r2 c0', 2]], 'observed': o, 'case_key': 'C09|D26|dunder-class-attribute'})
     # (2b) the same binding through the REAL rbql-js engine (its own escaping: js_string_escape_column_name, its own variable parsers);
     # input table AND join table (b["name"]), list front-end, spellings that are valid in both languages
-    jcases = [c for c in cases if c['frontend'] == 'list' and c['spell'] in ('dq', 'sq', 'attr')]
+    jcases = [c for c in cases if c['frontend'] == 'list' and c['spell'] in ('dq', 'sq', 'attr') and not c.get('fstring')]
     for c in list(jcases):
         if rnd.random() < 0.4:
             jc = dict(c)
